@@ -166,12 +166,47 @@ def prop_gridgame(spec, ctx):
 
 
 # ---------------------------------------------------------------- factor tables
-VALS = {"a": [0, 1, 2], "b": ["x", "y"], "c": [{"x": 0, "y": 0}, {"x": 1, "y": 0}, {"x": 0, "y": 1}], "d": [0, 1]}
+# variables are leaf paths of nested-dict rows ("c.x" is row["c"]["x"]); two tables may share a top-level key and only
+# part of what is nested under it. ("c" with whole-dict values is kept for older replay files only.)
+VALS = {"a": [0, 1, 2], "b": ["x", "y"], "c": [{"x": 0, "y": 0}, {"x": 1, "y": 0}, {"x": 0, "y": 1}], "d": [0, 1],
+        "c.x": [0, 1], "c.y": [0, 1], "e.u": ["p", "q"], "e.v.w": [0, 1], "e.v.z": [0, 1]}
+DRAWN = ["a", "b", "d", "c.x", "c.y", "e.u", "e.v.w", "e.v.z"]
+
+
+def make_row(vs, r):
+    row = {}
+    for v, i in zip(vs, r):
+        cur = row
+        parts = v.split(".")
+        for k in parts[:-1]:
+            cur = cur.setdefault(k, {})
+        cur[parts[-1]] = VALS[v][i]
+    return row
+
+
+def flatten(row, prefix=()):
+    out = {}
+    for k, v in row.items():
+        if isinstance(v, dict):
+            out.update(flatten(v, prefix + (k,)))
+        else:
+            out[prefix + (k,)] = v
+    return out
+
+
+def unflatten(flat):
+    row = {}
+    for path, v in flat.items():
+        cur = row
+        for k in path[:-1]:
+            cur = cur.setdefault(k, {})
+        cur[path[-1]] = v
+    return row
 
 
 @st.composite
 def table_specs(draw, variables=None):
-    vs = variables or draw(st.lists(st.sampled_from(sorted(VALS)), min_size=1, max_size=3, unique=True))
+    vs = variables or draw(st.lists(st.sampled_from(DRAWN), min_size=1, max_size=4, unique=True))
     vs = sorted(vs)
     allrows = list(itertools.product(*[range(len(VALS[v])) for v in vs]))
     k = draw(st.integers(1, min(5, len(allrows))))
@@ -185,14 +220,26 @@ def table_specs(draw, variables=None):
 @st.composite
 def table_pairs(draw, tier="quick"):
     p = draw(table_specs())
-    same = draw(st.booleans())
-    q = draw(table_specs(variables=p["vars"] if same else None))
+    same = draw(st.integers(0, 3))
+    if same == 0:
+        q = draw(table_specs(variables=p["vars"]))
+    elif same == 1:
+        # the same top-level keys, partly different variables nested under them
+        tops = sorted({v.split(".")[0] for v in p["vars"]})
+        pool = [v for v in DRAWN if v.split(".")[0] in tops]
+        vs = draw(st.lists(st.sampled_from(pool), min_size=1, max_size=4, unique=True))
+        for t in tops:
+            if not any(v.split(".")[0] == t for v in vs):
+                vs.append(draw(st.sampled_from([v for v in pool if v.split(".")[0] == t])))
+        q = draw(table_specs(variables=vs))
+    else:
+        q = draw(table_specs())
     return {"p": p, "q": q, "w1": draw(st.sampled_from([0.2, 0.5, 1, 2])), "w2": draw(st.sampled_from([0.8, 0.5, 1, 3]))}
 
 
 def build_table(t):
     from msdm.core.distributions import DiscreteFactorTable
-    rows = [{v: VALS[v][i] for v, i in zip(t["vars"], r)} for r in t["rows"]]
+    rows = [make_row(t["vars"], r) for r in t["rows"]]
     tot = sum(t["w"])
     if t["how"] == "probs":
         return DiscreteFactorTable(rows, probs=[w / tot for w in t["w"]]), rows
@@ -207,7 +254,7 @@ def ref_measure(t):
     """row -> weight. Tables built from probs carry normalised weights, tables built from logits
     carry the raw weights exp(logit) (that is what scaling and mixing act on)."""
     tot = sum(t["w"]) if t["how"] == "probs" else 1
-    return {rkey({v: VALS[v][i] for v, i in zip(t["vars"], r)}): F(w, tot) for r, w in zip(t["rows"], t["w"])}
+    return {rkey(make_row(t["vars"], r)): F(w, tot) for r, w in zip(t["rows"], t["w"])}
 
 
 def compare_table(ctx, name, table, want, what):
@@ -224,15 +271,17 @@ def prop_tables(case, ctx):
     q, qrow = build_table(case["q"])
     mp, mq = ref_measure(case["p"]), ref_measure(case["q"])
     vp, vq = case["p"]["vars"], case["q"]["vars"]
-    shared = [v for v in vp if v in vq]
-    # product = normalised natural join with multiplied weights
+    # product = normalised natural join (rows agree on every shared leaf path) with multiplied weights
     join = {}
+    shared = set()
     for kr, wr in mp.items():
         for ks, ws in mq.items():
-            r, s = json.loads(kr), json.loads(ks)
+            r, s = flatten(json.loads(kr)), flatten(json.loads(ks))
+            shared = set(r) & set(s)
             if all(r[v] == s[v] for v in shared) and wr * ws > 0:
                 m = dict(r)
                 m.update(s)
+                m = unflatten(m)
                 join[rkey(m)] = join.get(rkey(m), F(0)) + wr * ws
     z = sum(join.values(), F(0))
     prod = ctx.call("C18.tables.product_raises", lambda: p & q)
@@ -255,7 +304,7 @@ def prop_tables(case, ctx):
         compare_table(ctx, "C18.tables.mixture_adds_weights", got, {k: v / zz for k, v in mix.items() if v > 0}, "w1*p | w2*q")
         ctx.event("mixture_checked")
     # marginalising onto the first variable sums weights
-    v0 = vp[0]
+    v0 = vp[0].split(".")[0]
     marg = ctx.call("C18.tables.marginalize_raises", p.marginalize, lambda r: {v0: r[v0]})
     want = {}
     for k, v in mp.items():
@@ -263,10 +312,13 @@ def prop_tables(case, ctx):
         want[kk] = want.get(kk, F(0)) + v
     zm = sum(want.values(), F(0))
     compare_table(ctx, "C18.tables.marginalize_sums_weights", marg, {k: v / zm for k, v in want.items()}, "marginalize")
+    tops_p, tops_q = {v.split(".")[0] for v in vp}, {v.split(".")[0] for v in vq}
     if not shared:
         ctx.event("disjoint_variables")
     elif set(vp) == set(vq):
         ctx.event("same_variables")
+    elif tops_p == tops_q:
+        ctx.event("same_top_level_keys_partial_nested_overlap")
     else:
         ctx.event("partial_overlap")
     ctx.nontrivial(bool(shared) and len(mp) >= 2 and len(mq) >= 2)
